@@ -7,9 +7,9 @@ import time
 from . import checks, explore, trace
 from .sim import Sim
 
-C15_KEYS = ("mutex:", "contig:", "edt:", "unit:", "close:", "lockfree:", "hang:", "fifo:")
+C15_KEYS = ("mutex:", "contig:", "edt:", "unit:", "unit-prefix:", "retry:", "close:", "lockfree:", "hang:", "fifo:")
 C17_KEYS = ("leak:", "wrap:", "status:", "inflight:", "errclass:", "timeout:", "xtalk-cancel:", "result:",
-            "lockfree:", "hang:")
+            "lockfree:", "hang:", "edt:", "retry:")
 
 DRIVERS = ("tridonic", "hasseb", "luba", "sci")
 
@@ -90,6 +90,14 @@ class Runner:
     def rand(self, cfg, n):
         explore.random_walks(cfg, self.visit(cfg), self.ctx.rng, n, bias=_bias)
 
+    def sweep(self, cfg, n):
+        """one fault at every quiescent point of the fault-free run (callers queued, then callers one by one)"""
+        runs = explore.sweep(cfg, self.visit(cfg))
+        if not self.out_of_time():
+            runs += explore.sweep(cfg, self.visit(cfg), sequential=True)
+        self.corr.bump("sweep-runs", runs)
+        return runs
+
 
 def _bias(c, sim):
     k = c[0]
@@ -99,7 +107,7 @@ def _bias(c, sim):
         return 3.0
     if k == "timer":
         return 1.5
-    if k in ("lose", "cancel", "drop", "noise"):
+    if k in ("lose", "cancel", "drop", "noise", "trunc"):
         return 0.6
     return 1.0
 
@@ -117,7 +125,7 @@ def cfg_from_json(d):
         return tuple(tup(y) for y in x) if isinstance(x, list) else x
     d["callers"] = [(c[0], [tup(i) for i in c[1]] if isinstance(c[1], list) else c[1], c[2] if len(c) > 2 else {})
                     for c in d["callers"]]
-    for k in ("loss_kinds", "droppable"):
+    for k in ("loss_kinds", "droppable", "trunc_bytes"):
         if k in d:
             d[k] = tuple(d[k])
     return d
@@ -164,6 +172,20 @@ def c15_configs(thorough):
             out.append(("rand", dict(driver=d, allow_late=True, any_start_order=True,
                                      callers=[("send", "dtc", {}), ("seq", ["dtq", "cfg"], {}), ("send", "q", {})]),
                         40 if not thorough else 300))
+        if d in ("tridonic", "hasseb"):
+            # the gateway is lost and comes back while a unit is on its way (strengthening after seeded round 2): a
+            # send with exceptions off is RETRIED, and the retried unit must again be whole - EnableDeviceType in front
+            # of the device-type command also on the second transmission; loss injected at every quiescent point
+            out.append(("sweep", dict(driver=d, limit=None, budget={"lose": 1, "back": 1},
+                                      callers=[("send", "q", {}), ("send", "dtq", {"exc": False})]), 0))
+            out.append(("sweep", dict(driver=d, limit=None, exceptions_on_send=False, budget={"lose": 1, "back": 1},
+                                      callers=[("send", "dtc", {}), ("send", "emq", {}), ("seq", ["dtq", "off"], {})]), 0))
+            out.append(("dfs", dict(driver=d, limit=None, budget={"lose": 1, "back": 1},
+                                    callers=[("send", "off", {}), ("send", "dtq", {"exc": False})]), n))
+            out.append(("rand", dict(driver=d, limit=None, any_start_order=True, exceptions_on_send=False,
+                                     budget={"lose": 2, "back": 2},
+                                     callers=[("send", "dtq", {}), ("send", "dtc", {}), ("send", "q", {"exc": True}),
+                                              ("seq", ["emq", "cfg"], {})]), 60 if thorough else 20))
         m = 120 if thorough else 14
         out.append(("rand", dict(driver=d, any_start_order=True, budget={"noise": 1},
                                  callers=[("send", "off", {}), ("send", "emq", {}), ("seq", ["dtq", "q"] + dev, {}),
@@ -185,6 +207,17 @@ def c17_configs(thorough):
             out.append(("rand", dict(driver=d, limit=lim, budget={"lose": 2, "back": 2, "absent_timers": 4},
                                      callers=[("send", "dtq", {"exc": False}), ("seq", ["q", "dtq"], {}),
                                               ("send", "cfg", {})]), m))
+        # strengthening after seeded round 2: one loss at EVERY quiescent point of the fault-free run (in particular
+        # after the EnableDeviceType prefix completed and while the command itself is in flight), device back, the
+        # retried send must re-send prefix + command and hand its caller the answer to its own command
+        for lim in (None, 2):
+            out.append(("sweep", dict(driver=d, limit=lim, budget={"lose": 1, "back": 1},
+                                      callers=[("send", "dtq", {"exc": False}), ("send", "q", {}),
+                                               ("send", "dtc", {"exc": False})]), 0))
+        out.append(("sweep", dict(driver=d, limit=None, exceptions_on_send=False, budget={"lose": 1, "back": 1},
+                                  callers=[("send", "emq", {}), ("seq", ["dtq", "q"], {})]), 0))
+        out.append(("dfs", dict(driver=d, limit=None, budget={"lose": 1, "back": 1},
+                                callers=[("send", "q", {}), ("send", "dtq", {"exc": False})]), n))
         out.append(("dfs", dict(driver=d, limit=2, absent_at_start=True, budget={"back": 1},
                                 callers=[("send", "q", {"exc": False})]), n))
         out.append(("dfs", dict(driver=d, limit=1, budget={"lose": 1, "back": 0},
@@ -206,6 +239,15 @@ def c17_configs(thorough):
     for d in ("luba", "sci"):
         out.append(("dfs", dict(driver=d, budget={"drop": 1}, callers=[("send", "q", {}), ("send", "cfg", {})]), n))
         out.append(("dfs", dict(driver=d, budget={"drop": 2}, callers=[("seq", ["dtq", "off"], {}), ("send", "q", {})]), n))
+        # strengthening after seeded round 2: the gateway goes silent PART-WAY THROUGH a report (only its first 1 / 3
+        # bytes arrive - a truncated confirmation or answer, or a stray start byte while idle - and then nothing, ever):
+        # the send in flight AND every later send still end within the documented timeouts, nobody hangs, lock free
+        out.append(("sweep", dict(driver=d, budget={"trunc": 1},
+                                  callers=[("send", "q", {}), ("send", "dtq", {}), ("seq", ["off", "q"], {})]), 0))
+        out.append(("dfs", dict(driver=d, budget={"trunc": 1}, callers=[("send", "q", {}), ("send", "cfg", {})]), n))
+        out.append(("rand", dict(driver=d, any_start_order=True, budget={"trunc": 1, "drop": 1},
+                                 callers=[("send", "dtc", {}), ("seq", ["q", ("sleep", 0.02), "dtq"], {}),
+                                          ("send", "qn", {})]), m * 2))
     return out
 
 
@@ -217,6 +259,8 @@ def run_configs(ctx, corr, configs, keys, model):
             continue
         if mode == "dfs":
             r.dfs(cfg, n)
+        elif mode == "sweep":
+            r.sweep(cfg, n)
         else:
             r.rand(cfg, n)
     r.flush()
